@@ -117,7 +117,7 @@ def pRanges : P (List ARange) := do
   (List.range n).mapM fun _ => pRange
 
 def pBlock : P BlockOp := do
-  let isConv ← nextB; let usesLut ← nextB; let ifm2Scalar ← nextB; let hasIfm2 ← nextB
+  let isConv ← nextB; let isRSum ← nextB; let usesLut ← nextB; let ifm2Scalar ← nextB; let hasIfm2 ← nextB
   let hasK ← nextB
   let kw ← nextI; let kh ← nextI; let sx ← nextI; let sy ← nextI; let dx ← nextI; let dy ← nextI
   let hasP ← nextB
@@ -129,7 +129,7 @@ def pBlock : P BlockOp := do
   let ofm ← pFMap
   let ws ← pRanges
   let bs ← pRanges
-  pure { isConv2D := isConv, ifm := ifm, ifm2 := if hasIfm2 then some ifm2 else none, ifm2Scalar := ifm2Scalar,
+  pure { isConv2D := isConv, isReduceSum := isRSum, ifm := ifm, ifm2 := if hasIfm2 then some ifm2 else none, ifm2Scalar := ifm2Scalar,
          ofm := ofm, kernel := if hasK then some ⟨kw, kh, sx, sy, dx, dy⟩ else none,
          padding := if hasP then some ⟨pt, pl, pb, pr⟩ else none, weights := ws, biases := bs,
          usesLut := usesLut, blockConfig := ⟨bh, bw, bd⟩, ifmBits := bits }
